@@ -208,3 +208,7 @@ pub open spec fn post_function(a: Unifiable, b: Unifiable, ss: RSS, res: Option<
     &&& (is_fn(b) && !is_fn(a) && !(a is SFunction) && !(a is Anonymous) && !ueq(a, b) ==> upost(fval(b, ss@), a, ss, res))
     &&& (is_fn(a) && is_fn(b) && !ueq(a, b) ==> upost(fval(b, ss@), fval(a, ss@), ss, res))
 }
+
+// Whether self.unify(other, ss) succeeds.  Uninterpreted; tied to the real function
+// only by the stub-only clause `(res is Some) == unify_ok(..)` (unify is pure).
+pub uninterp spec fn unify_ok(a: Unifiable, b: Unifiable, s: SS) -> bool;
